@@ -254,6 +254,12 @@ def body_typed_operand(h, rule, t):
         p, f, node, legal = Pass2(cu), 'process_input_pre', N(var_list=[N(type=Type.INTEGER), operand]), t != 'U'
     elif rule == 'while_cond':
         p, f, node, legal = Pass3(cu), 'process_while_block_pre', N(cond=operand), numeric
+    elif rule == 'if_cond':
+        p, f, node, legal = Pass3(cu), 'process_if_pre', N(cond=operand), numeric
+    elif rule == 'if_block_cond':
+        p, f, node, legal = Pass3(cu), 'process_if_block_pre', N(if_blocks=[(N(type=Type.INTEGER), []), (operand, [])]), numeric
+    elif rule == 'loop_cond':
+        p, f, node, legal = Pass3(cu), 'process_loop_block_pre', N(cond=operand), numeric
     elif rule == 'play':
         p, f, node, legal = Pass2(cu), 'process_play_pre', N(command_string=operand), t == '$'
     elif rule == 'screen_mode':
@@ -315,7 +321,8 @@ CONTRACTS = [
                                              'qbee.compiler:Pass3.process_while_block_pre', 'qbee.compiler:Pass2.process_play_pre',
                                              'qbee.compiler:Pass2.process_screen_pre', 'qbee.compiler:Pass2.process_poke_pre',
                                              'qbee.compiler:Pass3.process_print_pre'], body_typed_operand,
-             cases=[(r, t) for r in ('for_var', 'input_target', 'while_cond', 'play', 'screen_mode', 'poke_address', 'print_item') for t in 'ILSD$U']),
+             cases=[(r, t) for r in ('for_var', 'input_target', 'while_cond', 'if_cond', 'if_block_cond', 'loop_cond', 'play', 'screen_mode',
+                                     'poke_address', 'print_item') for t in 'ILSD$U']),
     Contract('static.error_position', PROPS, ['qbee.exceptions:CompileError.__init__'], body_error_position,
              cases=[(a, b) for a in (True, False) for b in (True, False)]),
 ]
